@@ -107,6 +107,11 @@ def main(chk):
         bad = [p for p in ps if p['exp'] == [9, 'runtime']]
         comp = 'R := DS_1[calc x := cast(Me_1, %s)];' % VTLNAME[t]
         dsl = 'R := cast(DS_1, %s);' % VTLNAME[t]
+        if not ps[0]['accepted'] and any(p.get('beyond', [14, 0])[0] != 14 for p in ps):
+            # the documentation forbids the pair; where the engine converts anyway the values are still checked (one value per run)
+            for p in ps:
+                args.append({'script': comp, 'structures': [st], 'tables': {'DS_1': {'cols': ['Id_1', 'Me_1'], 'rows': [[0, src_text(p)]]}}})
+                meta.append(('beyond', 'component', f, t, [p]))
         if not ps[0]['accepted']:
             rows = [[k, src_text(p)] for k, p in enumerate(ps) if p['src'][0] != 0][:3] or [[0, None]]
             for lvl, sc in (('component', comp), ('dataset', dsl)):
@@ -138,6 +143,27 @@ def main(chk):
         chk.add('evaluations', len(ps))
         if 'err' in o and o['err'].startswith('RAW'):
             chk.violation('raw | %s | %s' % (key, ps[0]['text'] if kind == 'runtime' else ''), 'raw error escaped: %s %s' % (o['err'], o['msg'][:200]), {'script': a['script'], 'input': a['tables']})
+            continue
+        if kind == 'beyond':
+            p = ps[0]
+            if o.get('sem') == 'SemanticError':
+                continue                      # the engine follows the documented table for this pair
+            want = p['beyond']
+            if 'err' in o:
+                if want != [9, 'runtime']:
+                    chk.violation('value (pair beyond the table) | %s | %r' % (key, p['text']), 'the engine admits cast %s -> %s; %s converts to %s but the engine raised %s %s' % (f, t, p['text'], want, o['err'], o['msg'][:120]), {'script': a['script']})
+                else:
+                    chk.add('traces_validated_against_impl')
+                continue
+            tb = o['results']['R']
+            got = decode(tb['rows'][0][tb['cols'].index('x')] if tb['rows'] else None, t)
+            if want == [9, 'runtime']:
+                chk.violation('unconvertible accepted (pair beyond the table) | %s | %r' % (key, p['text']), 'cast of %s (%s) to %s has no calendar-correct value, engine returned %s' % (p['text'], f, t, got), {'script': a['script']})
+            elif want[0] == 5 and got[0] == 5 and got[1] == want[1] or same(want, got):
+                chk.add('traces_validated_against_impl')
+                distinct.add((f, t, 'beyond', p['k']))
+            else:
+                chk.violation('value (pair beyond the table) | %s | %r' % (key, p['text']), 'the engine admits cast %s -> %s: %s must convert to %s, engine %s' % (f, t, p['text'], want, got), {'script': a['script']})
             continue
         if kind == 'semantic':
             if o.get('sem') != 'SemanticError':
